@@ -2,5 +2,5 @@ import CRProofs.XsdEnum
 namespace CR.C03
 set_option maxRecDepth 100000 in
 set_option maxHeartbeats 1000000 in
-theorem signs_zam_eq_ger : zamSigns = gerSigns := by decide
+theorem signs_other_2 : ((otherSigns.drop 34).all signOk) = true := by decide
 end CR.C03
